@@ -13,6 +13,7 @@ from permuta import Av, Basis, MeshBasis, MeshPatt, Perm
 
 from harness import tlc, tour, util
 
+SITE_SUB = "Av.is_subclass when self or other has a mesh basis"
 INVS = ["LevelsExact", "SpotsExact", "TopTwoUncompacted", "NoFault", "ReplyCorrect", "ItersSound", "CacheCoherent"]
 OPS_MECH = '{"NewAv", "Count", "OfLength", "Enumeration", "Member"}'
 OPS_CACHE = '{"NewAv", "ClearCache", "Count", "Member", "IsSubclass", "OfLength"}'
@@ -189,15 +190,17 @@ def judge_reply(ctx, bases, real, a, reply, obs, case):
         exp, got, clause = reply["flag"], obs["flag"], "ReplyCorrect"
         ok = exp == got
         jb = case["bases"][case["inst_basis"][a["n"] - 1] - 1]
-        if jb["mesh"]:
-            # the model's value is the bounded ideal: FALSE is definite, TRUE only "not refuted up to the bound"
-            if exp is False and got is True:
-                e = ctx.known_entry("Av.is_subclass(other) with other.basis a MeshBasis", "IsSubclass_MeshVacuous")
+        ib = case["bases"][case["inst_basis"][a["i"] - 1] - 1]
+        if jb["mesh"] or ib["mesh"]:
+            # the model's value is the bounded ideal: FALSE is definite, TRUE only "not refuted up to the bound";
+            # the coded walk (reply.n) is the named deviation IsSubclass_MeshBasisWalk
+            if exp is False and got is True and got == bool(reply["n"]):
+                e = ctx.known_entry(SITE_SUB, "IsSubclass_MeshBasisWalk")
                 if e is not None:
-                    ctx.known_finding(e, {"self": case["bases"][case["inst_basis"][a["i"] - 1] - 1], "other": jb})
+                    ctx.known_finding(e, {"self": ib, "other": jb})
                     return True
-            elif exp is True:
-                return True              # undecidable from a bounded universe: not judged
+            elif exp is True or got == exp:
+                return True              # undecidable from a bounded universe, or the ideal answer: not judged / fine
     else:
         return True
     if not ok:
@@ -298,8 +301,8 @@ def random_history(rnd, bases, real, maxlen, steps):
                 ev.append({"op": "Member", "i": i, "q": list(q), "res": Perm(q) in av})
             elif kind == "IsSubclass":
                 j = rnd.randint(1, ni)
-                if bases[real.inst_b[j - 1] - 1]["mesh"]:
-                    continue          # mesh `other`: judged in the tours (bounded ideal / known finding)
+                if bases[real.inst_b[j - 1] - 1]["mesh"] or bases[real.inst_b[i - 1] - 1]["mesh"]:
+                    continue          # a mesh basis on either side: judged in the tours (bounded ideal / known finding)
                 ev.append({"op": "IsSubclass", "i": i, "j": j, "res": av.is_subclass(real.insts[j - 1])})
             elif len(real.its) < 2:
                 if kind == "OpenOf":
